@@ -590,8 +590,8 @@ WORLD_TRUSTED = [
 WORLD_ASSUMPTIONS = [
     "group, channel-enabled and peer-to-peer topics (no me/fnd/sys; presence routed through users' `me` topics is not observed), one "
     "server node, requests processed one at a time in arrival order; on-behalf-of (root `as=`) requests are exercised on plain group "
-    "topics only; on a channel-enabled topic two users come as readers (`chn` spelling) and two as subscribers, a reader does not issue "
-    "{set desc}, {del msg} or {del sub}",
+    "topics only; on a channel-enabled topic two users come as readers (`chn` spelling) and two as subscribers, one request in twenty "
+    "under the other spelling",
     "accounts carry the default access the server stores for an account (within JRWPAS / JRWPA, with A unless N: user.go:97-117)",
     "at most one injected store failure or crash point per request",
 ]
